@@ -519,10 +519,12 @@ func (r *runner) handleInterruptWithSubGraphAndRerunNodes(
 		}
 	}
 	intInfo := &InterruptInfo{
-		State:      cp.State,
-		AfterNodes: interruptAfterNodes,
-		RerunNodes: interruptRerunNodes,
-		SubGraphs:  make(map[string]*InterruptInfo),
+		State: cp.State,
+		// the ready tasks run as soon as the run is resumed: interrupt-before nodes among them are reported now
+		BeforeNodes: getHitKey(readyTasks, r.interruptBeforeNodes),
+		AfterNodes:  interruptAfterNodes,
+		RerunNodes:  interruptRerunNodes,
+		SubGraphs:   make(map[string]*InterruptInfo),
 	}
 	for _, t := range subgraphTasks {
 		if isStream {
